@@ -433,6 +433,31 @@ theorem slider_samples_shift_false :
   revert e
   decide
 
+/-- the FULL statement of the clause for IEEE doubles on integer times (sliders included, nothing erased), state level. -/
+def shift_invariant_float_int_statement : Prop :=
+  ∀ (k : Int), k.natAbs < 2 ^ 51 → ∀ st : HitObjectsState Float Float32, StateIn IntTime st →
+    (shiftState (Float.ofInt k) st).finish = (st.finish).map (shiftHitObjects (Float.ofInt k))
+
+/-- **it is false** (witness `k = −1000`, `sxState`). What holds is `shift_invariant_float_int_finish` (no sliders) and the
+`_partial` theorems below (sliders allowed, their resolved samples not compared). -/
+theorem shift_invariant_float_int_statement_false : ¬ shift_invariant_float_int_statement :=
+  fun h => slider_samples_shift_false (h (-1000) (by decide))
+
+/-- the provable part with sliders, under the `_partial` naming convention (state level / line level). -/
+theorem shift_invariant_float_int_finish_partial (k : Int) (hk : k.natAbs < 2 ^ 51) (st : HitObjectsState Float Float32)
+    (hin : StateIn IntTime st) :
+    ((shiftState (Float.ofInt k) st).finish).map eraseHO =
+      (st.finish).map (fun ho => eraseHO (shiftHitObjects (Float.ofInt k) ho)) :=
+  shift_invariant_float_int_finish_erased k hk st hin
+
+theorem shift_invariant_float_int_partial (k : Int) (hk : k.natAbs < 2 ^ 51) (ls ls' : SecLines)
+    (h : LinesShiftOn IntTime (Float.ofInt k) ls ls')
+    (hobj : ∀ o ∈ (runLines ls (HitObjectsState.create : HitObjectsState Float Float32)).core.hitObjects, ObjIn IntTime o) :
+    ((runLines ls' (HitObjectsState.create : HitObjectsState Float Float32)).finish).map eraseHO =
+      ((runLines ls (HitObjectsState.create : HitObjectsState Float Float32)).finish).map
+        (fun ho => eraseHO (shiftHitObjects (Float.ofInt k) ho)) :=
+  shift_invariant_float_int_erased k hk ls ls' h hobj
+
 /-- the law behind it: `(a + k) + d = (a + d) + k` fails for integers `a`, `k` and a non-integer `d`. -/
 theorem add_right_comm_nonint_false :
     (Float.ofInt 1000 + Float.ofInt (-1000)) + sxDur ≠ (Float.ofInt 1000 + sxDur) + Float.ofInt (-1000) := by decide +kernel
